@@ -97,11 +97,11 @@ func c19GenConfig(t *verifrt.Tape, sc *c19Scenario, writer string) *Config {
 	)
 	// audit-engine switches by ctl, keyed on a token so that only some transactions take them
 	if t.Draw(3) == 0 {
-		cfg.Rules = append(cfg.Rules, RuleSpec{ID: 190, Phase: 1, Targets: []TargetSpec{{Var: "REQUEST_URI"}}, Op: "@contains tok1",
+		cfg.Rules = append(cfg.Rules, RuleSpec{ID: 190, Phase: []int{1, 2, 5, 5}[t.Draw(4)], Targets: []TargetSpec{{Var: "REQUEST_URI"}}, Op: "@contains tok1",
 			Log: "nolog", Extra: []string{"ctl:auditEngine=" + pick(t, []string{"On", "Off", "RelevantOnly"})}})
 	}
 	if t.Draw(4) == 0 {
-		cfg.Rules = append(cfg.Rules, RuleSpec{ID: 191, Phase: 2, Targets: []TargetSpec{{Var: "REQUEST_URI"}}, Op: "@contains index",
+		cfg.Rules = append(cfg.Rules, RuleSpec{ID: 191, Phase: []int{1, 2, 5}[t.Draw(3)], Targets: []TargetSpec{{Var: "REQUEST_URI"}}, Op: "@contains index",
 			Log: "nolog", Extra: []string{"ctl:auditLogParts=" + pick(t, []string{"+E", "-H", "-K", "+K", "-B"})}})
 	}
 	return cfg
